@@ -53,10 +53,11 @@ const migUnknownID = "is not a known rule or category ID"
 // migEmptyRules is bufcheck's system error for a configuration whose use minus except is empty.
 const migEmptyRules = "resultRules was empty"
 
-// migUnknownIDClass classifies an "unknown id" failure after/during migration by the id it names:
-// "deprecated-id" (deprecated in v1/v1beta1, gone in v2), "v1beta1-only-id" (exists only in the v1beta1
-// tables) or "unknown-id"; "" if the text is not such a failure.
-func migUnknownIDClass(text string) string {
+// migUnknownIDClass classifies an "unknown id" failure after/during migration by the id it names and
+// the input shape: "v1beta1-only-id" (the id exists only in the v1beta1 tables; for a failing migration
+// additionally: a v1beta1 buf.yaml of the case names it explicitly), "deprecated-id" (deprecated in
+// v1/v1beta1, gone in v2) or "unknown-id"; "" if the text is not such a failure.
+func (c *migCase) migUnknownIDClass(text string, needNamed bool) string {
 	i := strings.Index(text, migUnknownID)
 	if i < 0 {
 		return ""
@@ -78,6 +79,9 @@ func migUnknownIDClass(text string) string {
 	}
 	for _, kind := range []string{"lint", "breaking"} {
 		if migTables["v1beta1"][kind].has(id) && !migTables["v1"][kind].has(id) {
+			if needNamed && !c.namesID(id) {
+				return "unknown-id"
+			}
 			return "v1beta1-only-id"
 		}
 	}
@@ -148,10 +152,176 @@ func (c *migCase) checksDisabled(mod string) (lint, breaking bool) {
 	return mc.LintConfig().Disabled(), mc.BreakingConfig().Disabled()
 }
 
+// categoryDrift reports whether every differing annotation of a module is explained by an ignore_only
+// entry of its un-migrated buf.yaml whose key is a category that contains the annotation's rule in
+// exactly one of the two versions (the old one and v2): migration copies such keys verbatim.
+func (c *migCase) categoryDrift(mod, kind string, onlyBefore, onlyAfter []string) bool {
+	text, ok := c.Files[migJoin(mod, "buf.yaml")]
+	if !ok {
+		return false
+	}
+	f, err := bufconfig.ReadBufYAMLFile(strings.NewReader(text), "buf.yaml")
+	if err != nil || len(f.ModuleConfigs()) != 1 {
+		return false
+	}
+	var cfg bufconfig.CheckConfig = f.ModuleConfigs()[0].LintConfig()
+	if kind == "breaking" {
+		cfg = f.ModuleConfigs()[0].BreakingConfig()
+	}
+	if cfg.Disabled() {
+		return false
+	}
+	oldTable, newTable := migTables[f.FileVersion().String()][kind], migTables["v2"][kind]
+	if oldTable == nil {
+		return false
+	}
+	inCat := func(tb *migRuleTable, cat, rule string) bool {
+		for _, r := range tb.catRules[cat] {
+			if r == rule {
+				return true
+			}
+		}
+		return false
+	}
+	explained := func(texts []string, wantOld bool) bool {
+		for _, text := range texts {
+			a, ok := migAnnByText[text]
+			if !ok {
+				return false
+			}
+			found := false
+			for cat, paths := range cfg.IgnoreIDOrCategoryToPaths() {
+				if inCat(oldTable, cat, a.Type) != wantOld || inCat(newTable, cat, a.Type) == wantOld {
+					continue
+				}
+				for _, p := range paths {
+					if a.Path == p || strings.HasPrefix(a.Path, p+"/") {
+						found = true
+					}
+				}
+			}
+			if !found {
+				return false
+			}
+		}
+		return true
+	}
+	// only after: ignored through the category before, no longer a member in v2; only before: the reverse.
+	return len(onlyBefore)+len(onlyAfter) > 0 && explained(onlyAfter, true) && explained(onlyBefore, false)
+}
+
+// migLostToExceptCategory reports whether every differing annotation is an annotation that disappeared
+// and whose rule the migrated buf.yaml names in `use` of the module while an `except` category of the
+// same section contains that rule in v2 (except wins over use): the migrator re-adds rules that the
+// v2 categories no longer cover through `use`, which has no effect under such an `except`.
+func migLostToExceptCategory(migratedYAML, mod, kind string, onlyBefore, onlyAfter []string) bool {
+	if len(onlyAfter) > 0 || len(onlyBefore) == 0 {
+		return false
+	}
+	f, err := bufconfig.ReadBufYAMLFile(strings.NewReader(migratedYAML), "buf.yaml")
+	if err != nil {
+		return false
+	}
+	v2 := migTables["v2"][kind]
+	for _, text := range onlyBefore {
+		a, ok := migAnnByText[text]
+		if !ok {
+			return false
+		}
+		found := false
+		for _, mc := range f.ModuleConfigs() {
+			if !(mod == "." || mc.DirPath() == mod || strings.HasPrefix(mc.DirPath(), mod+"/")) {
+				continue
+			}
+			var cfg bufconfig.CheckConfig = mc.LintConfig()
+			if kind == "breaking" {
+				cfg = mc.BreakingConfig()
+			}
+			if cfg.Disabled() {
+				continue
+			}
+			inUse := false
+			for _, id := range cfg.UseIDsAndCategories() {
+				if id == a.Type {
+					inUse = true
+				}
+			}
+			if !inUse {
+				continue
+			}
+			for _, cat := range cfg.ExceptIDsAndCategories() {
+				for _, r := range v2.catRules[cat] {
+					if r == a.Type {
+						found = true
+					}
+				}
+			}
+		}
+		if !found {
+			return false
+		}
+	}
+	return true
+}
+
+// noBufYAML: input shape "the module directory has no buf.yaml" (read from the case's file tree).
 func (c *migCase) noBufYAML(mod string) bool {
+	_, ok := c.Files[migJoin(mod, "buf.yaml")]
+	return !ok
+}
+
+// migCheckConfigs returns the lint and breaking configuration of every un-migrated buf.yaml of the case.
+func (c *migCase) migCheckConfigs() (version []string, cfgs []bufconfig.CheckConfig) {
 	for _, m := range c.Modules {
-		if m.Dir == mod {
-			return m.NoBufYAML
+		text, ok := c.Files[migJoin(m.Dir, "buf.yaml")]
+		if !ok {
+			continue
+		}
+		f, err := bufconfig.ReadBufYAMLFile(strings.NewReader(text), "buf.yaml")
+		if err != nil || len(f.ModuleConfigs()) != 1 {
+			continue
+		}
+		mc := f.ModuleConfigs()[0]
+		version = append(version, f.FileVersion().String(), f.FileVersion().String())
+		cfgs = append(cfgs, mc.LintConfig(), mc.BreakingConfig())
+	}
+	return version, cfgs
+}
+
+// namesID: input shape "a v1beta1 configuration names the id explicitly" (use, except or ignore_only).
+func (c *migCase) namesID(id string) bool {
+	versions, cfgs := c.migCheckConfigs()
+	for i, cfg := range cfgs {
+		if versions[i] != "v1beta1" || cfg.Disabled() {
+			continue
+		}
+		ids := append(cfg.UseIDsAndCategories(), cfg.ExceptIDsAndCategories()...)
+		for k := range cfg.IgnoreIDOrCategoryToPaths() {
+			ids = append(ids, k)
+		}
+		for _, x := range ids {
+			if x == id {
+				return true
+			}
+		}
+	}
+	return false
+}
+
+// exceptsCategory: input shape "a v1beta1 configuration excepts a whole category" - the shape whose
+// translation can leave no rule (or silently drop one), because categories differ between v1beta1 and v2.
+func (c *migCase) exceptsCategory() bool {
+	versions, cfgs := c.migCheckConfigs()
+	for i, cfg := range cfgs {
+		if versions[i] != "v1beta1" || cfg.Disabled() {
+			continue
+		}
+		for _, x := range cfg.ExceptIDsAndCategories() {
+			for _, kind := range []string{"lint", "breaking"} {
+				if _, ok := migTables["v1beta1"][kind].catRules[x]; ok {
+					return true
+				}
+			}
 		}
 	}
 	return false
@@ -247,10 +417,14 @@ func migFlatten(root string, err error) ([]migAnn, error) {
 	return out, nil
 }
 
+// migAnnByText lets the classifier get back from the canonical text of an annotation to its fields.
+var migAnnByText = map[string]migAnn{}
+
 func migAnnSet(as []migAnn) []string {
 	set := map[string]bool{}
 	for _, a := range as {
 		set[a.String()] = true
+		migAnnByText[a.String()] = a
 	}
 	out := make([]string, 0, len(set))
 	for s := range set {
@@ -438,6 +612,7 @@ type migStats struct {
 // key and message when the property is falsified ("" otherwise); harness problems are tb.Fatalf.
 func migOracle(tb evid.TB, env *migEnv, c *migCase, st *migStats) (string, string) {
 	ctx := context.Background()
+	migAnnByText = map[string]migAnn{}
 	base, err := os.MkdirTemp("", "c16mig")
 	if err != nil {
 		tb.Fatalf("harness: temp dir: %v", err)
@@ -509,9 +684,9 @@ func migOracle(tb evid.TB, env *migEnv, c *migCase, st *migStats) (string, strin
 	migrator := bufmigrate.NewMigrator(migLogger, moduleKeyProvider, commitProvider)
 	if err := bufmigrate.MigrateAll(ctx, migrator, bucket, []string{".git", ".github"}); err != nil {
 		key := "migrate-failed"
-		if cls := migUnknownIDClass(err.Error()); cls != "" {
+		if cls := c.migUnknownIDClass(err.Error(), true); cls != "" {
 			key = "migrate-failed:" + cls
-		} else if strings.Contains(err.Error(), migEmptyRules) {
+		} else if strings.Contains(err.Error(), migEmptyRules) && c.exceptsCategory() {
 			key = "migrate-failed:empty-rule-set"
 		}
 		return key, fmt.Sprintf("bufmigrate.MigrateAll on a workspace that builds, lints and breaking-checks before migration: %v", err)
@@ -548,7 +723,7 @@ func migOracle(tb evid.TB, env *migEnv, c *migCase, st *migStats) (string, strin
 			return "migration:build-fails", fmt.Sprintf("builds before migration, fails after: %s\n%s", a.Err, ctxText)
 		}
 		// files
-		if !equalStrings(migKeys(b.files), migKeys(a.files)) {
+		if !migEqualStrings(migKeys(b.files), migKeys(a.files)) {
 			return "migration:files-differ", fmt.Sprintf("modules with built files before %v, after %v\n%s", migKeys(b.files), migKeys(a.files), ctxText)
 		}
 		for _, mod := range migKeys(b.files) {
@@ -568,9 +743,9 @@ func migOracle(tb evid.TB, env *migEnv, c *migCase, st *migStats) (string, strin
 		// lint
 		if a.lintErr != "" {
 			key := "migration:lint-results-differ"
-			if cls := migUnknownIDClass(a.lintErr); cls != "" {
+			if cls := c.migUnknownIDClass(a.lintErr, false); cls != "" {
 				key = "migration:emitted-" + cls
-			} else if strings.Contains(a.lintErr, migEmptyRules) {
+			} else if strings.Contains(a.lintErr, migEmptyRules) && c.exceptsCategory() {
 				key = "migration:emitted-empty-rule-set"
 			}
 			return key, fmt.Sprintf("lint works before migration, fails after: %s\n%s", a.lintErr, ctxText)
@@ -583,6 +758,12 @@ func migOracle(tb evid.TB, env *migEnv, c *migCase, st *migStats) (string, strin
 				}
 				if c.noBufYAML(mod) {
 					key = "migration:no-buf-yaml-module-gets-v2-defaults"
+				}
+				if c.categoryDrift(mod, "lint", onlyB, onlyA) {
+					key = "migration:ignore-only-category-membership-differs"
+				}
+				if c.exceptsCategory() && migLostToExceptCategory(st.migratedYAML, mod, "lint", onlyB, onlyA) {
+					key = "migration:rule-lost-to-except-category"
 				}
 				return key, fmt.Sprintf("module %q: lint annotations only before (%d):\n  %s\nonly after (%d):\n  %s\n%s",
 					mod, len(onlyB), strings.Join(onlyB, "\n  "), len(onlyA), strings.Join(onlyA, "\n  "), ctxText)
@@ -598,9 +779,9 @@ func migOracle(tb evid.TB, env *migEnv, c *migCase, st *migStats) (string, strin
 		set, mismatch, errText := a.breaking(ctx, W, against[in])
 		if mismatch || errText != "" {
 			key := "migration:breaking-results-differ"
-			if cls := migUnknownIDClass(errText); cls != "" {
+			if cls := c.migUnknownIDClass(errText, false); cls != "" {
 				key = "migration:emitted-" + cls
-			} else if strings.Contains(errText, migEmptyRules) {
+			} else if strings.Contains(errText, migEmptyRules) && c.exceptsCategory() {
 				key = "migration:emitted-empty-rule-set"
 			}
 			return key, fmt.Sprintf("breaking against the un-migrated copy works before migration, fails after: %s\n%s", errText, ctxText)
@@ -618,6 +799,12 @@ func migOracle(tb evid.TB, env *migEnv, c *migCase, st *migStats) (string, strin
 			if c.noBufYAML(mod) {
 				key = "migration:no-buf-yaml-module-gets-v2-defaults"
 			}
+			if c.categoryDrift(mod, "breaking", onlyB, onlyA) {
+				key = "migration:ignore-only-category-membership-differs"
+			}
+			if c.exceptsCategory() && migLostToExceptCategory(st.migratedYAML, mod, "breaking", onlyB, onlyA) {
+				key = "migration:rule-lost-to-except-category"
+			}
 			return key, fmt.Sprintf("module %q: breaking annotations only before (%d):\n  %s\nonly after (%d):\n  %s\n%s",
 				mod, len(onlyB), strings.Join(onlyB, "\n  "), len(onlyA), strings.Join(onlyA, "\n  "), ctxText)
 		}
@@ -625,7 +812,7 @@ func migOracle(tb evid.TB, env *migEnv, c *migCase, st *migStats) (string, strin
 	return "", ""
 }
 
-func equalStrings(a, b []string) bool {
+func migEqualStrings(a, b []string) bool {
 	if len(a) != len(b) {
 		return false
 	}
@@ -852,6 +1039,21 @@ func migDirectedCases() []migDirected {
 			single("v1beta1", "version: v1beta1\nlint:\n  use:\n    - ENUM_PASCAL_CASE\nbreaking:\n  except:\n    - WIRE_JSON\n")},
 		{"migrate-failed:empty-rule-set", "v1beta1 `breaking.use: [FILE_SAME_PACKAGE], except: [PACKAGE]` makes migration fail with a system error",
 			single("v1beta1", "version: v1beta1\nlint:\n  use:\n    - ENUM_PASCAL_CASE\nbreaking:\n  use:\n    - FILE_SAME_PACKAGE\n  except:\n    - PACKAGE\n")},
+		{"migration:ignore-only-category-membership-differs", "v1beta1 `breaking.ignore_only: {WIRE: [path]}` ignores FIELD_SAME_TYPE; the key is copied verbatim although v2's WIRE has no FIELD_SAME_TYPE",
+			func() migCase {
+				const y = "version: v1beta1\nlint:\n  use:\n    - ENUM_PASCAL_CASE\nbreaking:\n  ignore_only:\n    WIRE:\n      - a/v1/a.proto\n"
+				c := single("v1beta1", y)
+				c.Files["a/v1/a.proto"] = "syntax = \"proto3\";\n\npackage a.v1;\n\nmessage Foo {\n  bytes bar = 1;\n}\n"
+				c.Against["a/v1/a.proto"] = "syntax = \"proto3\";\n\npackage a.v1;\n\nmessage Foo {\n  int64 bar = 1;\n}\n"
+				return c
+			}()},
+		{"migration:rule-lost-to-except-category", "v1beta1 `breaking: {use: [FILE], except: [PACKAGE]}` checks FILE_SAME_PACKAGE (FILE-only in v1beta1); the migrator re-adds it through `use`, where v2's PACKAGE in `except` cancels it",
+			func() migCase {
+				const y = "version: v1beta1\nlint:\n  use:\n    - ENUM_PASCAL_CASE\nbreaking:\n  use:\n    - FILE\n  except:\n    - PACKAGE\n"
+				c := single("v1beta1", y)
+				c.Against["a/v1/a.proto"] = "syntax = \"proto3\";\n\npackage a.v1old;\n\nmessage foo_bar {\n  string bar = 1;\n}\n"
+				return c
+			}()},
 		{"migration:no-buf-yaml-module-gets-v2-defaults", "a workspace directory without buf.yaml gets the v2 default rules instead of the v1 ones",
 			migCase{
 				Kind: "migration", Layout: "work", Inputs: []string{".", "proto"},
